@@ -667,3 +667,54 @@ def quadratic_extrap(ys, xs):
     x1,x2,x3 = xs
     return x2*x3/((x1-x2)*(x1-x3)) * y1 + x1*x3/((x2-x1)*(x2-x3)) * y2\
             + x1*x2/((x3-x1)*(x3-x2)) * y3
+
+def cubic_extrap(ys, xs):
+    """
+    Cubically extrapolate from four x,y pairs to x = 0.
+
+    ys: y values from x,y pairs. Note that these can be arrays of values.
+    xs: x values from x,y pairs. These should be scalars.
+
+    Returns extrapolated y at x=0.
+    """
+    y1,y2,y3,y4 = ys
+    x1,x2,x3,x4 = xs
+    return x2*x3*x4/((x2-x1)*(x3-x1)*(x4-x1)) * y1\
+            + x1*x3*x4/((x1-x2)*(x3-x2)*(x4-x2)) * y2\
+            + x1*x2*x4/((x1-x3)*(x2-x3)*(x4-x3)) * y3\
+            + x1*x2*x3/((x1-x4)*(x2-x4)*(x3-x4)) * y4
+
+def quartic_extrap(ys, xs):
+    """
+    Quartically extrapolate from five x,y pairs to x = 0.
+
+    ys: y values from x,y pairs. Note that these can be arrays of values.
+    xs: x values from x,y pairs. These should be scalars.
+
+    Returns extrapolated y at x=0.
+    """
+    y1,y2,y3,y4,y5 = ys
+    x1,x2,x3,x4,x5 = xs
+    return x2*x3*x4*x5/((x2-x1)*(x3-x1)*(x4-x1)*(x5-x1)) * y1\
+            + x1*x3*x4*x5/((x1-x2)*(x3-x2)*(x4-x2)*(x5-x2)) * y2\
+            + x1*x2*x4*x5/((x1-x3)*(x2-x3)*(x4-x3)*(x5-x3)) * y3\
+            + x1*x2*x3*x5/((x1-x4)*(x2-x4)*(x3-x4)*(x5-x4)) * y4\
+            + x1*x2*x3*x4/((x1-x5)*(x2-x5)*(x3-x5)*(x4-x5)) * y5
+
+def quintic_extrap(ys, xs):
+    """
+    Quintically extrapolate from six x,y pairs to x = 0.
+
+    ys: y values from x,y pairs. Note that these can be arrays of values.
+    xs: x values from x,y pairs. These should be scalars.
+
+    Returns extrapolated y at x=0.
+    """
+    y1,y2,y3,y4,y5,y6 = ys
+    x1,x2,x3,x4,x5,x6 = xs
+    return x2*x3*x4*x5*x6/((x2-x1)*(x3-x1)*(x4-x1)*(x5-x1)*(x6-x1)) * y1\
+            + x1*x3*x4*x5*x6/((x1-x2)*(x3-x2)*(x4-x2)*(x5-x2)*(x6-x2)) * y2\
+            + x1*x2*x4*x5*x6/((x1-x3)*(x2-x3)*(x4-x3)*(x5-x3)*(x6-x3)) * y3\
+            + x1*x2*x3*x5*x6/((x1-x4)*(x2-x4)*(x3-x4)*(x5-x4)*(x6-x4)) * y4\
+            + x1*x2*x3*x4*x6/((x1-x5)*(x2-x5)*(x3-x5)*(x4-x5)*(x6-x5)) * y5\
+            + x1*x2*x3*x4*x5/((x1-x6)*(x2-x6)*(x3-x6)*(x4-x6)*(x5-x6)) * y6
